@@ -46,7 +46,7 @@ static rc::Gen<cw::W> smallW() {
     w.fs.root = gf::genSchema(o);
     for (size_t i = 0; i < w.fs.root.kids.size(); i++) w.fs.root.kids[i].name = "c" + std::to_string(i);
     auto lv = pw::leaves(w.fs.root);
-    w.codec = *rc::gen::element(0, 0, 1, 2, 5, 6); w.page_size = *rc::gen::element<int64_t>(64, 256, 1 << 20); w.order = (uint32_t)*irange(1, 1 << 30);
+    w.codec = *rc::gen::element(0, 0, 1, 2, 5, 6); w.page_size = *rc::gen::element<int64_t>(64, 256, 1 << 20); w.order = (uint32_t)*irange(1, 1 << 30); w.opts = *rc::gen::weightedOneOf<int>({{3, rc::gen::just(0)}, {2, irange(0, 15)}}); w.level = *rc::gen::element(0, 0, 1, 9, 19);
     int nrg = *rc::gen::weightedOneOf<int>({{1, rc::gen::just(0)}, {4, rc::gen::just(1)}, {2, rc::gen::just(2)}});
     for (int g = 0; g < nrg; g++) {
       size_t rows = (size_t)*rc::gen::weightedOneOf<int>({{6, irange(1, 12)}, {1, irange(200, 900)}});
@@ -54,13 +54,14 @@ static rc::Gen<cw::W> smallW() {
       std::vector<pw::ChunkSpec> rg; std::vector<std::vector<int>> pc; std::vector<int> nl;
       for (auto &lf : lv) {
         pw::ChunkSpec cs; cs.n = rows;
-        if (lf.max_def) { auto p = *gf::presentGen(rows); for (auto x : p) cs.def.push_back(x); }
+        int nolevm = lf.max_def ? *rc::gen::element(0, 0, 0, 1, 2) : 0;   // OPTIONAL column written without a levels array (always / when a batch has no null)
+        if (lf.max_def) { auto p = nolevm == 1 ? std::vector<uint8_t>(rows, 1) : *gf::presentGen(rows); for (auto x : p) cs.def.push_back(x); }
         size_t nn = 0; for (size_t i = 0; i < rows; i++) if (!lf.max_def || cs.def[i]) nn++;
         Bytes proto = *gf::valueGen(lf.type, lf.type_length);
         if (lf.type == pq::BYTE_ARRAY && proto.size() > 16) proto.resize(16);
         for (size_t i = 0; i < nn; i++) { Bytes v = proto; if (!v.empty()) { v[0] = (uint8_t)(v[0] + i); if (lf.type == pq::BOOLEAN) v[0] &= 1; } cs.values.push_back(v); }
         pw::PageSpec pg; pg.end = rows; cs.pages.push_back(pg);
-        rg.push_back(cs); nl.push_back(0);
+        rg.push_back(cs); nl.push_back(nolevm);
         std::vector<int> part; size_t left = rows; while (left) { size_t k = (size_t)*irange(1, (int)std::min<size_t>(left, 300)); part.push_back((int)k); left -= k; }
         pc.push_back(part);
       }
